@@ -13,7 +13,9 @@ RULE = ("dynamic-scope topologies: 1..5 schema resources (embedded or Loader doc
         "final $dynamicRef in fragment, resource-relative or pointer form; expected target computed here from the specification's "
         "rule (outermost declaring resource in scope, else the initial target); dag: 2..4 Loader documents referring to one another in a "
         "directed acyclic graph (diamonds), entered from 2..4 use sites whose names / positions are shuffled, so that the order in which "
-        "documents are first met is independent of the evaluation paths. Non-trivial: >= 2 resources; distinct = operation text")
+        "documents are first met is independent of the evaluation paths; 12 % of all of these with the anchor renamed (ASCII names and, rarely, "
+        "non-ASCII letters) and each reference fragment spelled plainly or with percent-escapes (#%6Eode, r2#nod%65, #n%C5%93ud): the decoded "
+        "name is what is looked up, statically and on the dynamic scope. Non-trivial: >= 2 resources; distinct = operation text")
 TRUSTED = ["python oracle implementing the outermost-resource rule for the expected marks"]
 BASE = "http://x.test/dyn/root.json"
 
@@ -161,11 +163,12 @@ def wrap(rng, sch, levels):
     return sch
 
 
-def topo(rng, decoy_p=0.3):
+def topo(rng, decoy_p=0.3, mid_p=0.4, bare_p=1 / 3):
     """Several use sites in ONE instance (array positions or properties) reach one generic resource G, which holds the $dynamicRef '#N',
     through different intermediate resources; a resource is entered at its root or by a JSON Pointer into its middle ($defs/entry), at
     equal or different stack depths. No python oracle: the real package is compared with the model (proved equal to the Spec's
-    outermost-declaring-resource rule)."""
+    outermost-declaring-resource rule). mid_p: probability that a resource is entered in the middle; bare_p: probability that a hop is
+    the only keyword of the schema that holds it (a bare {"$ref": ...}) instead of sitting behind allOf / anyOf / if wrappers."""
     k = rng.randint(2, 5)                     # resources 1..k-1 are intermediates, k is G
     kinds = [rng.choice(["dyn", "dyn", "anchor", "none"]) for _ in range(k + 1)]
     kinds[k] = rng.choice(["dyn", "dyn", "dyn", "anchor", "none"])
@@ -204,7 +207,7 @@ def topo(rng, decoy_p=0.3):
         mine = [inter.pop() for _ in range(min(len(inter), rng.randint(0, 2)))]
         chain_ = mine + [k]
         # the site schema enters the first resource of its chain; every intermediate enters the next one
-        mids = [rng.random() < 0.4 for _ in chain_]
+        mids = [rng.random() < mid_p for _ in chain_]
         mids[-1] = g_mid
         reenter = len(mine) >= 2 and kinds[mine[0]] != "none" and rng.random() < 0.35
         if reenter:
@@ -216,7 +219,7 @@ def topo(rng, decoy_p=0.3):
                 hop = Obj([("$ref", res_name(mine[0]) + "#/$defs/back")])
             else:
                 hop = Obj([("$ref", enter(b_, mb))]) if rng.random() < 0.8 or mb else Obj([("$dynamicRef", enter(b_, mb))])
-            lv = rng.randint(0, 2)
+            lv = 0 if rng.random() < bare_p else rng.randint(1, 2)
             if lv == 0:
                 place(a, ma, hop.kvs)
             else:
@@ -414,11 +417,70 @@ def dag(rng):
             "meta": {"expect": expv, "resources": nres, "kinds": kinds, "dag": True, "paths": paths, "entries": entries}}
 
 
+ANCHOR_NAMES = ["N", "node", "n-1", "a_b", "x.y", "T2", "_", "nœud", "é"]
+
+
+def pct(rng, name, every=False):
+    """name as a URI fragment with one / several / all of its characters percent-encoded (upper- or lower-case hex digits): another
+    spelling of the same fragment (RFC 3986 section 2.1: the encoding of a character and the character are equivalent in a fragment)"""
+    out, some = [], False
+    for i, ch in enumerate(name):
+        must = ord(ch) > 0x7f and rng.random() < 0.8
+        if must or every or rng.random() < 0.4:
+            h = "".join("%%%02X" % b for b in ch.encode("utf-8"))
+            out.append(h.lower() if rng.random() < 0.25 else h)
+            some = True
+        else:
+            out.append(ch)
+    if not some:
+        h = "%%%02X" % ord(name[0]) if ord(name[0]) < 0x80 else "".join("%%%02X" % b for b in name[0].encode("utf-8"))
+        out[0] = h
+    return "".join(out)
+
+
+def respell(rng, op):
+    """The same operation with the anchor called something else than `N` and every reference fragment that names it spelled, reference
+    by reference, plainly or with percent-escapes (`#%6Eode`, `r2#nod%65`, `#n%C5%93ud`). Fragments are compared after decoding, at
+    Resolve time (initial target) and at Validate time (search of the dynamic scope), so nothing else changes: the expectations of the
+    operation stay what they were."""
+    name = rng.choice(ANCHOR_NAMES)
+    p_enc = rng.choice([0.5, 0.8, 1.0])
+
+    def frag():
+        if rng.random() < p_enc:
+            return pct(rng, name, every=rng.random() < 0.2)
+        return name
+
+    def walk(v):
+        if isinstance(v, Obj):
+            kvs = []
+            for k, x in v.kvs:
+                if k in ("$dynamicAnchor", "$anchor") and x == "N":
+                    x = name
+                elif k in ("$dynamicRef", "$ref") and isinstance(x, str) and x.endswith("#N"):
+                    x = x[:-1] + frag()
+                else:
+                    x = walk(x)
+                kvs.append((k, x))
+            return Obj(kvs)
+        if isinstance(v, list):
+            return [walk(x) for x in v]
+        return v
+
+    a = dict(op["args"])
+    a["schema"] = walk(a["schema"])
+    a["docs"] = [[u, walk(b)] for u, b in a.get("docs") or []]
+    return {"op": op["op"], "args": a, "meta": dict(op["meta"], respelled=name)}
+
+
 def gen(rng, tier, n):
     ops = [o for o in suite.suite_ops("draft2020-12") if "dynamicRef" in o["meta"]["suite"] or "dynamic" in o["meta"]["suite"]]
     while len(ops) < n:
         r = rng.random()
-        ops.append(chain(rng) if r < 0.46 else fork(rng) if r < 0.6 else dag(rng) if r < 0.68 else topo(rng))
+        o = chain(rng) if r < 0.46 else fork(rng) if r < 0.6 else dag(rng) if r < 0.68 else topo(rng)
+        if rng.random() < 0.12:
+            o = respell(rng, o)
+        ops.append(o)
     return ops
 
 
